@@ -219,11 +219,32 @@ def jsq(ctx, P):
             ctx.violation(ob, "R6.argmin", "JoinShortestQueue.next_node", "tie arm", "selection-not-from-iteration", "a tie must append that destination", loc(t))
     flexible_update(ctx, P, ob)
     # FlexibleProcessBased builds its temporary routers over the given subset
-    fp = P.classes["FlexibleProcessBased"].methods["find_next_node_from_subset"]
-    s = unparse(fp).replace(" ", "")
+    fview = P.view("FlexibleProcessBased")
+    fcls, fp = fview.method("find_next_node_from_subset")
+    sub_p = fp.args.args[1].arg if len(fp.args.args) > 1 else "subset"
+    want = {"random": "random_choice", "jsq": "JoinShortestQueue", "lb": "LoadBalancing"}
     ob.ok("FlexibleProcessBased.find_next_node_from_subset")
-    if "JoinShortestQueue(destinations=subset)" not in s or "LoadBalancing(destinations=subset)" not in s or "ciw.random_choice(subset)" not in s:
-        ctx.violation(ob, "R6.argmin", "FlexibleProcessBased.find_next_node_from_subset", "subset routers", "scan-collection", "the flexible choice must be made among the given subset", loc(fp))
+    for choice, callee in want.items():
+        facts = {}
+        for u in want:
+            guards.assume(guards.norm(ast.parse("self.choice == %r" % u, mode="eval").body, unparse), u == choice, facts)
+        w = Walker(P, fview, keep=lambda e: e.kind == "call" and e.d["meth"] in set(want.values()), inline=rules.new_helper, track=lambda t, f: True)
+        okk, npaths = True, 0
+        for st in w.paths_of(fcls, fp, facts=facts):
+            if st.status == "raise":
+                continue
+            npaths += 1
+            calls = [e for e in st.events if e.kind == "call"]
+            if len(calls) != 1 or calls[0].d["meth"] != callee:
+                okk = False
+            else:
+                e = calls[0]
+                over = e.d["kw"].get("destinations") if callee != "random_choice" else (e.d["args"][0] if e.d["args"] else e.d["kw"].get("array"))
+                if over != sub_p:
+                    okk = False
+        if not okk or npaths == 0:
+            ctx.violation(ob, "R6.argmin", "FlexibleProcessBased.find_next_node_from_subset", "subset routers", "scan-collection", "the flexible choice must be made among the given subset", loc(fp))
+            break
 
 
 class _InService:
@@ -263,7 +284,7 @@ def in_service(ctx, P, iters):
                 if m in ("__init__", "reset_individual_attributes"):
                     continue
                 cls, fn = view.resolve(m)
-                w = Walker(P, view, keep=relevant, inline=lambda ev: ev.d["meth"] in unbalanced, loop_iters=iters)
+                w = Walker(P, view, keep=relevant, inline=lambda ev: ev.d["meth"] in unbalanced or rules.new_helper(ev), loop_iters=iters)
                 bad = []
                 touched = False
                 for st in w.paths_of(cls, fn):
@@ -306,14 +327,14 @@ def in_service(ctx, P, iters):
             if m in unbalanced:
                 continue
             for obj, dc, ds, st in bad:
-                construct = "%s.number_in_service %+d vs starts-stops %+d" % (obj, dc, ds)
+                construct = "%s.number_in_service %+d vs starts-stops %+d" % ("self" if obj == "self" else "other-node", dc, ds)
                 key = ("%s.%s" % (cls.name, m), construct)
                 if key in reported:
                     continue
                 reported.add(key)
                 ctx.violation(ob, "R2.in-service", "%s.%s" % (cls.name, m), construct, "unbalanced",
-                              "on a path of %s.%s (view %s) number_in_service changes by %+d but services started minus stopped is %+d [%s]: JoinShortestQueue then sees a wrong waiting line"
-                              % (cls.name, m, view.name, dc, ds, facts_text(st)), loc(fn), witness(st))
+                              "on a path of %s.%s (view %s) %s.number_in_service changes by %+d but services started minus stopped is %+d [%s]: JoinShortestQueue then sees a wrong waiting line"
+                              % (cls.name, m, view.name, obj, dc, ds, facts_text(st)), loc(fn), witness(st))
     ctx.floor("methods touching number_in_service / service_start_date", len(ob.nontrivial), 7)
 
 
